@@ -8,9 +8,17 @@ symbolic; list lengths run over 0..17 (both sides of every 4- and 8-per-line bou
 import z3
 from pyvc.engine import Obj, NVec, Builtin
 from pyvc import library as L
-from pyvc.values import PyExc, Unsupported
+from pyvc.values import PyExc, Unsupported, to_int, to_real
 
-FUNCS = ['t2data.trim_trailing_nones', 't2data.t2data.write_timesteps', 't2data.t2data.read_timesteps',
+FUNCS = ['t2data.t2data.write', 't2data.t2data.read', 't2data.t2data.read_meshfile', 't2data.t2data.write_extra_precision', 't2data.t2data.read_extra_precision',
+         't2data.t2data.update_sections', 't2data.t2data.get_present_sections', 't2data.t2data.update_read_write_functions', 't2data.t2data.read_parameters', 't2data.t2data.write_parameters',
+         't2data.t2data.read_rocktypes', 't2data.t2data.write_rocktypes', 't2data.t2data.read_blocks', 't2data.t2data.write_blocks', 't2data.t2data.read_connections', 't2data.t2data.write_connections',
+         't2data.t2data.read_generators', 't2data.t2data.write_generators', 't2data.t2data.read_incons', 't2data.t2data.write_incons', 't2data.t2data.read_indom', 't2data.t2data.write_indom',
+         't2data.t2data.read_short_output', 't2data.t2data.write_short_output', 't2data.t2data.read_history_blocks', 't2data.t2data.write_history_blocks',
+         't2data.t2data.read_history_connections', 't2data.t2data.write_history_connections', 't2data.t2data.read_history_generators', 't2data.t2data.write_history_generators',
+         't2data.t2data.read_meshmaker', 't2data.t2data.write_meshmaker', 't2data.t2data.read_diffusion', 't2data.t2data.write_diffusion', 't2data.t2data.read_multi', 't2data.t2data.write_multi',
+         't2data.t2data.read_rpcap', 't2data.t2data.write_rpcap', 't2data.t2data.read_more_options', 't2data.t2data.write_more_options', 't2data.t2data.read_title', 't2data.t2data.write_title',
+         't2data.t2data.read_simulator', 't2data.t2data.write_simulator', 't2data.trim_trailing_nones', 't2data.t2data.write_timesteps', 't2data.t2data.read_timesteps',
          't2data.t2data.write_times', 't2data.t2data.read_times', 't2data.t2data.write_selection', 't2data.t2data.read_selection',
          't2data.t2data.write_generator', 't2data.t2data.read_generator', 't2data.t2data.write_meshmaker_rz2d',
          't2data.t2data.read_meshmaker_rz2d', 't2data.t2data.write_meshmaker_xyz', 't2data.t2data.read_meshmaker_xyz',
@@ -33,6 +41,7 @@ class Tape(object):
             close=Builtin('close', lambda eng: None))
         self.obj = o
         self.lines = None
+        self.ff = None
 
     def _write_value_line(self, eng, d, kind):
         names = self.spec[kind][0]
@@ -42,7 +51,13 @@ class Tape(object):
         # raw text is handed out line by line
         if self.lines is None or self.lines[0] is not self.recs:
             flat = []
-            for r in self.recs:
+            merged = []
+            for r in self.recs:      # write('SHORT'); write('%2d' % n); write('\n') is one line
+                if r[0] == 'raw' and merged and merged[-1][0] == 'raw' and isinstance(r[1], str) and isinstance(merged[-1][1], str) and not merged[-1][1].endswith('\n'):
+                    merged[-1] = ('raw', merged[-1][1] + r[1])
+                else:
+                    merged.append(r)
+            for r in merged:
                 if r[0] == 'raw':
                     parts = r[1].split('\n')
                     flat += [('raw', x + '\n') for x in parts[:-1]] + ([('raw', parts[-1])] if parts[-1] else [])
@@ -59,13 +74,64 @@ class Tape(object):
         self.pos += 1
         return r
 
+    # -- the read side: the contract of the field layer (C02) lifted to records -------------------
+    def _ff(self):
+        if self.ff is None:
+            from contracts.c02 import make_fff
+            self.ff = make_fff(self.e, self.spec)
+        return self.ff
+
+    def _fmt_str(self, v, fmt, w):
+        """Text of a string field: the C02 contract of write_values_to_string for type 's'
+        ('%<fmt>' % value, cut to the field width)."""
+        if isinstance(v, Obj) and v.cls is not None:          # '%5s' % object: its __repr__ (rock type -> its name)
+            rep = v.cls.lookup('__str__') or v.cls.lookup('__repr__')
+            if rep is None:
+                raise Unsupported('string field holds an object without __repr__')
+            v = self.e.call(rep, [v])
+        return (('%' + fmt) % v)[:w] if isinstance(v, str) else v
+
+    def _as_kind(self, r, kind):
+        """What parse_string(kind) returns for the line that write_values(r) produced: field by field,
+        the value written in exactly those columns (blank -> None, string fields as their padded
+        text); an error if the two layouts do not line up."""
+        ls_w, ls_r = self._ff().fields['line_spec'][r[1]], self._ff().fields['line_spec'][kind]
+        fm_w = self.spec[r[1]][1]
+        vals = list(r[2]) + [None] * (len(ls_w) - len(r[2]))
+        cols = dict((c, (k, t)) for k, (c, t) in enumerate(ls_w))
+        end = ls_w[-1][0][1] if ls_w else 0
+        out = []
+        for (c, t) in ls_r:
+            if t == 'x':
+                out.append(None)
+            elif c in cols:
+                k, tw = cols[c]
+                v = vals[k] if tw != 'x' else None
+                if v is None:
+                    out.append(' ' * (c[1] - c[0]) if t == 's' else None)
+                elif (t == 's') != (tw == 's') or (t == 'd') != (tw == 'd'):
+                    self.errors.append('field at columns %r written as %r (%s) read as %s of %r' % (c, r[1], tw, t, kind))
+                    out.append(None)
+                else:
+                    out.append(self._fmt_str(v, fm_w[k], c[1] - c[0]) if t == 's' else v)
+            elif c[0] >= end:
+                out.append('' if t == 's' else None)        # beyond the end of the written line
+            else:
+                self.errors.append('line written as %r parsed as %r: no field at columns %r' % (r[1], kind, c))
+                out.append(None)
+        return out
+
+    def _parse_raw(self, eng, text, kind):
+        """A keyword / title / blank line met by a record reader: the real parse_string on the text."""
+        if not isinstance(text, str):
+            raise Unsupported('symbolic raw line parsed as a record')
+        return eng.call(eng.get_function('fixed_format_file.fixed_format_file.parse_string'), [self._ff(), text, kind])
+
     def _read_values(self, eng, kind):
         r = self._next()
-        if r[0] != 'rec' or r[1] != kind:
-            self.errors.append('reader expects a %r record, tape holds %r' % (kind, r[:2]))
-            return [None] * len(self.spec[kind][1])
-        vals = list(r[2])
-        return vals + [None] * (len(self.spec[kind][1]) - len(vals))     # fields beyond the written ones are blank
+        if r[0] == 'raw':
+            return self._parse_raw(eng, r[1], kind)
+        return self._as_kind(r, kind)
 
     def _read_value_line(self, eng, d, kind):
         vals = self._read_values(eng, kind)
@@ -78,22 +144,35 @@ class Tape(object):
         if r[0] == 'raw':
             return r[1]
         # a record handed over as a line (to be parsed with parse_string): a token that behaves like a
-        # non-blank line that starts with no keyword
+        # line that starts with no keyword, blank exactly when every field written is blank
+        ls_w = self._ff().fields['line_spec'][r[1]]
+        blank = all(v is None or t == 'x' or (isinstance(v, str) and not v.strip()) for v, (c, t) in zip(r[2], ls_w))
         tok = Obj(None)
-        tok.fields.update(record=r, strip=Builtin('strip', lambda eng: 'x'), startswith=Builtin('startswith', lambda eng, s: False),
+        def cols(eng, lo, hi):
+            # text of columns [lo, hi) of the line: exact where it lies in one concrete string field (or blank ones),
+            # otherwise characters of a number - never a keyword (digits, sign, point, lower-case e, blanks)
+            lo, hi = lo or 0, (hi if hi is not None else 80)
+            out = ''
+            for v, (c, t), fm in zip(list(r[2]) + [None] * len(ls_w), ls_w, self.spec[r[1]][1]):
+                a, b = max(lo, c[0]), min(hi, c[1])
+                if a >= b:
+                    continue
+                if v is None or t == 'x':
+                    out += ' ' * (b - a)
+                elif t == 's' and isinstance(self._fmt_str(v, fm, c[1] - c[0]), str):
+                    out += self._fmt_str(v, fm, c[1] - c[0]).ljust(c[1] - c[0])[a - c[0]: b - c[0]]
+                else:
+                    out += '#' * (b - a)
+            return out
+        tok.fields['__getslice__'] = Builtin('line[a:b]', cols)
+        tok.fields.update(record=r, strip=Builtin('strip', lambda eng: '' if blank else 'x'), startswith=Builtin('startswith', lambda eng, s: False),
                           ljust=Builtin('ljust', lambda eng, n: tok), rstrip=Builtin('rstrip', lambda eng, *a: tok))
         return tok
 
     def _parse_string(self, eng, line, kind):
         if isinstance(line, Obj) and 'record' in line.fields:
-            r = line.fields['record']
-            names_w, names_r = self.spec[r[1]][0], self.spec[kind][0]
-            fm_w, fm_r = self.spec[r[1]][1], self.spec[kind][1]
-            if r[1] != kind and fm_w[:len(fm_r)] != fm_r[:len(fm_w)][:len(fm_r)] and fm_r[:len(fm_w)] != fm_w:
-                self.errors.append('line written as %r parsed as %r (different column layout)' % (r[1], kind))
-            vals = list(r[2])
-            return (vals + [None] * len(fm_r))[:len(fm_r)]
-        return [None] * len(self.spec[kind][1])
+            return self._as_kind(line.fields['record'], kind)
+        return self._parse_raw(eng, line, kind)
 
     def rewind(self):
         self.pos = 0
@@ -252,6 +331,46 @@ def p_rz2d(e, arg):
     e.explore(prog, 'rz2d')
 
 
+def p_options(e, flavour):
+    """The MOP digits (PARAM.1) and the MOMOP digits, symbolic 0..9 each: array -> 24 / 21 character string ->
+    array through the real write_parameters / read_parameters and write_more_options / read_more_options."""
+    def prog(e):
+        m = e.load_module('t2data').globals
+        d = e.call(m['t2data'], [])
+        if flavour == 'AUTOUGH2':
+            d.fields['simulator'] = 'AUTOUGH2.2EW'
+        mop = [e.sym_int('mop%d' % k, 0, 9) for k in range(1, 25)]
+        momop = [e.sym_int('momop%d' % k, 0, 9) for k in range(1, 22)]
+        d.fields['parameter']['option'] = NVec([0] + mop)
+        d.fields['more_option'] = NVec([0] + momop)
+        tape = Tape(e, m['t2data_format_specification'])
+        e.call(e.get_function('t2data.t2data.write_parameters'), [d, tape.obj])
+        e.call(e.get_function('t2data.t2data.write_more_options'), [d, tape.obj])
+        tape.recs.append(('raw', 'ENDCY\n'))
+        h = e.call(m['t2data'], [])
+        if flavour == 'AUTOUGH2':
+            h.fields['simulator'] = 'AUTOUGH2.2EW'
+        tape.rewind()
+        tape._readline(e)
+        nxt = e.call(e.get_function('t2data.t2data.read_parameters'), [h, tape.obj])
+        got = h.fields['parameter']['option']
+        e.prove(isinstance(got, NVec) and len(got.items) == 25 and L.equals(e, got.items[0], 0) is True and
+                _valid(e, z3.And(*[to_int(g) == w for g, w in zip(got.items[1:], mop)])), 'post:MOP_digits_preserved[%s]' % flavour)
+        e.prove(nxt == 'MOMOP\n' or (isinstance(nxt, str) and nxt.startswith('MOMOP')), 'post:line_after_PARAM_handed_back[%s]' % flavour)
+        e.call(e.get_function('t2data.t2data.read_more_options'), [h, tape.obj])
+        got = h.fields['more_option']
+        e.prove(isinstance(got, NVec) and len(got.items) == 22 and
+                _valid(e, z3.And(*[to_int(g) == w for g, w in zip(got.items[1:], momop)])), 'post:MOMOP_digits_preserved[%s]' % flavour)
+    e.explore(prog, 'options')
+
+
+def _valid(e, cond):
+    if isinstance(cond, bool):
+        return cond
+    s = z3.Solver(); s.set('timeout', 20000); s.add(*e.pc); s.add(z3.Not(cond))
+    return s.check() == z3.unsat
+
+
 def p_trim(e, n):
     def prog(e):
         f = e.get_function('t2data.trim_trailing_nones')
@@ -296,17 +415,246 @@ def p_section_order(e, _a=None):
     e.explore(prog, 'section_order')
 
 
+class TapeFiles(object):
+    """The files of one write()/read() cycle as record tapes, keyed by file name: opening for
+    writing starts a fresh tape, opening for reading rewinds the one written."""
+    def __init__(self, e, specs):
+        self.e, self.specs, self.files = e, specs, {}
+
+    def opener(self, which):
+        def op(eng, args, kwargs):
+            name, mode = args[0], (args[1] if len(args) > 1 else kwargs.get('mode', 'r'))
+            if 'w' in mode:
+                self.files[name] = Tape(self.e, self.specs[which])
+            elif name not in self.files:
+                raise PyExc('FileNotFoundError', name)
+            self.files[name].rewind()
+            return self.files[name].obj
+        return op
+
+    def install(self):
+        self.e.opaque['t2data_parser'] = self.opener('main')
+        self.e.opaque['t2_extra_precision_data_parser'] = self.opener('xp')
+        self.e.opaque['os.path.exists'] = lambda eng, args, kwargs: args[0] in self.files
+
+    def errors(self):
+        return [x for t in self.files.values() for x in t.errors]
+
+    def records(self):
+        """The files as written, string fields rendered to their text."""
+        out = {}
+        for name, t in self.files.items():
+            recs = []
+            for r in t.recs:
+                if r[0] == 'rec':
+                    ls, fm = t._ff().fields['line_spec'][r[1]], t.spec[r[1]][1]
+                    vals = [(t._fmt_str(v, fm[k], ls[k][0][1] - ls[k][0][0]) if k < len(ls) and ls[k][1] == 's' and v is not None else
+                             (None if k < len(ls) and ls[k][1] == 'x' else v)) for k, v in enumerate(r[2])]
+                    recs.append(('rec', r[1], vals))
+                else:
+                    recs.append(r)
+            out[name] = recs
+        return out
+
+
+class SymBackend(object):
+    """pyvc: the real constructors and methods run by the executor, symbolic numbers."""
+    def __init__(self, e): self.e = e
+    def real(self, name, *a): return self.e.sym_real(name, *a)
+    def int(self, name, lo, hi): return self.e.sym_int(name, lo, hi)
+    def new(self, mod, cls, args=(), kwargs=None): return self.e.call(self.e.load_module(mod).globals[cls], list(args), dict(kwargs or {}))
+    def fields(self, o): return o.fields
+    def method(self, o, name, *args): return self.e.call(self.e.getattr(o, name), list(args))
+    def vec(self, items): return NVec(items)
+    def nonzero(self, v): self.e.assume(v != 0)
+
+
+def build_model(e, flavour, shape):
+    from contracts.c01_model import build_model as bm
+    return bm(SymBackend(e), flavour, shape)
+
+
+def _same(e, a, b, path, bad):
+    """Structural equality of two symbolic heap values; values are compared with validity under the path condition."""
+    if isinstance(a, Obj) and isinstance(b, Obj):
+        ka = set(k for k in a.fields if not callable(a.fields[k]))
+        for k in sorted(set(a.fields) | set(b.fields)):
+            if k in ('rocktype', 'block', 'connection_name', 'generator') and isinstance(a.fields.get(k), (dict, set)):
+                continue                # name indices: rebuilt from the lists compared below
+            if k not in a.fields or k not in b.fields:
+                bad.append('%s.%s present on one side only' % (path, k)); continue
+            _same(e, a.fields[k], b.fields[k], '%s.%s' % (path, k), bad)
+        return
+    if isinstance(a, NVec) and isinstance(b, NVec) or isinstance(a, (list, tuple)) and isinstance(b, (list, tuple)):
+        ia, ib = (a.items, b.items) if isinstance(a, NVec) else (a, b)
+        if len(ia) != len(ib):
+            bad.append('%s: %d items written, %d read' % (path, len(ia), len(ib))); return
+        for k, (x, y) in enumerate(zip(ia, ib)):
+            _same(e, x, y, '%s[%d]' % (path, k), bad)
+        return
+    if isinstance(a, dict) and isinstance(b, dict):
+        if list(a.keys()) != list(b.keys()):
+            bad.append('%s: keys %r written, %r read' % (path, list(a.keys()), list(b.keys()))); return
+        for k in a:
+            _same(e, a[k], b[k], '%s[%r]' % (path, k), bad)
+        return
+    if a is None or b is None or isinstance(a, (str, bool)) or isinstance(b, (str, bool)):
+        if isinstance(a, str) and isinstance(b, str) and len(a) != len(b) and a.strip() == b.strip():
+            return                      # the same text up to the blank padding of its field
+        if not (a is b or (type(a) == type(b) and a == b)):
+            bad.append('%s: %r written, %r read' % (path, a, b))
+        return
+    try:
+        eq = L.equals(e, a, b)
+    except Exception as ex:
+        bad.append('%s: incomparable %r / %r' % (path, a, b)); return
+    if eq is True:
+        return
+    if eq is False:
+        bad.append('%s: %r written, %r read' % (path, a, b)); return
+    s = z3.Solver(); s.set('timeout', 10000); s.add(*e.pc); s.add(z3.Not(eq))
+    if s.check() != z3.unsat:
+        bad.append('%s: %s written, %s read' % (path, a, b))
+
+
+from contracts.c01_model import SECTION_CONTENT
+
+
+def _get(d, path):
+    for k in path.split('.'):
+        d = d.fields[k]
+    return d
+
+
+def p_whole_file(e, arg):
+    """The real t2data.write() and t2data.read() drivers (keyword dispatch, the PARAM look-ahead
+    line, the section list, END keyword, the MESH and extra-precision side files) over record tapes."""
+    flavour, mesh, xp, shape = arg
+    tag = '[%s,%s,xp=%s%s]' % (flavour, 'MESH file' if mesh else 'mesh in file', 'off' if not xp else ('all' if xp[0] is True else '+'.join(xp[0])) + ('/echoed' if xp[1] else ''),
+                               ''.join(',%s=%s' % kv for kv in sorted(shape.items())))
+    def prog(e):
+        m = e.load_module('t2data').globals
+        d = build_model(e, flavour, shape)
+        files = TapeFiles(e, {'main': m['t2data_format_specification'], 'xp': m['t2data_extra_precision_format_specification']})
+        files.install()
+        wargs = {'meshfilename': 'MESH'} if mesh else {}
+        if xp:
+            wargs.update(extra_precision=xp[0], echo_extra_precision=xp[1])
+        try:
+            e.call(e.get_function('t2data.t2data.write'), [d, 'model.dat'], dict(wargs))
+        except PyExc as ex:
+            e.fail('post:write_accepts_the_model' + tag, 'raises %s: %s' % (ex.cls, ex.msg)); return
+        first = files.records()
+        h = e.call(m['t2data'], [])
+        try:
+            e.call(e.get_function('t2data.t2data.read'), [h, 'model.dat'], {'meshfilename': 'MESH'} if mesh else {})
+        except PyExc as ex:
+            e.fail('post:read_accepts_what_write_produced' + tag, 'raises %s: %s' % (ex.cls, ex.msg)); return
+        e.prove(not files.errors(), 'post:read_accepts_what_write_produced' + tag)
+        if files.errors():
+            e.fail('post:read_accepts_what_write_produced' + tag, '; '.join(files.errors()[:3]))
+        df, hf = d.fields, h.fields
+        drop = ('ELEME', 'CONNE') if mesh else ()       # with a MESH file the two grid sections are not in the main file
+        so = lambda x: [k for k in x if k not in drop]
+        e.prove(so(hf['_sections']) == so(df['_sections']) and len(df['_sections']) >= 10 and all(k in hf['_sections'] for k in drop), 'post:same_sections_in_the_same_order' + tag)
+        if so(hf['_sections']) != so(df['_sections']):
+            e.fail('post:same_sections_in_the_same_order' + tag, 'written %r read %r' % (df['_sections'], hf['_sections']))
+        e.prove(hf['title'] == df['title'] and hf['end_keyword'] == df['end_keyword'] and e.getattr(h, 'type') == flavour, 'post:title_flavour_and_end_keyword_preserved' + tag)
+        if xp:
+            e.prove(hf['_extra_precision'] == df['_extra_precision'] and hf['_echo_extra_precision'] == df['_echo_extra_precision'] and len(df['_extra_precision']) >= 2,
+                    'post:extra_precision_sections_and_echo_flag_preserved' + tag)
+        for sec in m['t2data_sections']:
+            if sec not in df['_sections'] and sec not in df['_extra_precision'] and not (mesh and sec in ('ELEME', 'CONNE')):
+                continue
+            bad = []
+            for path in SECTION_CONTENT[sec]:
+                a, b = _get(d, path), _get(h, path)
+                if sec in ('FOFT', 'COFT', 'GOFT') and (mesh or df['_sections'].index(sec) < df['_sections'].index('ELEME')):
+                    # read before the MESH file: the requests are kept as names (and written from names)
+                    nm = lambda x: x if isinstance(x, (str, tuple)) else (x.fields['name'] if 'name' in x.fields else tuple(k.fields['name'] for k in x.fields['block']))
+                    a, b = [nm(x) for x in a], [nm(x) for x in b]
+                _same(e, a, b, path, bad)
+            name = 'post:section_%s_content_preserved%s' % (sec, tag)
+            if bad:
+                e.fail(name, '; '.join(bad[:4]))
+            else:
+                e.prove(True, name)
+        # writing the re-read object reproduces the first files record for record
+        try:
+            e.call(e.get_function('t2data.t2data.write'), [h, 'model.dat'], {'meshfilename': 'MESH'} if mesh else {})
+        except PyExc as ex:
+            e.fail('post:second_write_reproduces_the_first_files' + tag, 'raises %s: %s' % (ex.cls, ex.msg)); return
+        second = files.records()
+        # and a further fresh object reads the same content (nothing is shared between data objects)
+        h2 = e.call(m['t2data'], [])
+        try:
+            e.call(e.get_function('t2data.t2data.read'), [h2, 'model.dat'], {'meshfilename': 'MESH'} if mesh else {})
+            bad = []
+            _same(e, df['parameter'], h2.fields['parameter'], 'parameter', bad)          # against what was written: objects may share state
+            _same(e, df['parameter'], hf['parameter'], 'parameter (first object, after the second was read)', bad)
+            _same(e, df['generatorlist'], h2.fields['generatorlist'], 'generatorlist', bad)
+            _same(e, hf['_sections'], h2.fields['_sections'], '_sections', bad)
+        except PyExc as ex:
+            bad = ['raises %s: %s' % (ex.cls, ex.msg)]
+        if bad:
+            e.fail('post:a_further_fresh_object_reads_the_same_content' + tag, '; '.join(bad[:4]))
+        else:
+            e.prove(True, 'post:a_further_fresh_object_reads_the_same_content' + tag)
+        bad = []
+        _same(e, first, second, 'files', bad)
+        if bad:
+            e.fail('post:second_write_reproduces_the_first_files' + tag, '; '.join(bad[:4]))
+        else:
+            e.prove(len(first) == 1 + (1 if mesh else 0) + (1 if xp else 0), 'post:second_write_reproduces_the_first_files' + tag)
+    e.explore(prog, 'whole_file')
+
+
+WHOLE = [('TOUGH2', False, None, {}), ('AUTOUGH2', False, None, {}), ('TOUGH2', False, None, {'end': 'ENDFI', 'incons': 8}), ('AUTOUGH2', False, None, {'end': 'ENDFI', 'incons': 1}), ('TOUGH2', True, None, {'timesteps': 8, 'times': 16, 'incons': 4}),
+         ('AUTOUGH2', True, None, {'timesteps': 0, 'times': 0, 'incons': 0, 'ltab': 4, 'short': False}),
+         ('AUTOUGH2', False, (True, False), {}), ('AUTOUGH2', False, (True, True), {'timesteps': 17}), ('AUTOUGH2', False, (['ROCKS', 'GENER'], False), {'ltab': 8})]
+
+
+# every section kind that may legally follow PARAM directly (the reader of PARAM hands the line after the default
+# initial conditions back to the driver), with one and with two lines of default initial conditions
+AFTER_PARAM = {'TOUGH2': ['START', 'NOVER', 'RPCAP', 'SOLVR', 'MULTI', 'TIMES', 'SELEC', 'ELEME', 'MESHM', 'GENER', 'FOFT', 'COFT', 'GOFT', 'INCON', 'INDOM', 'END'],
+               'AUTOUGH2': ['START', 'RPCAP', 'LINEQ', 'MULTI', 'TIMES', 'ELEME', 'MESHM', 'GENER', 'INCON', 'INDOM', 'END']}
+WHOLE += [(fl, False, None, {'after_param': k, 'incons': n}) for fl in ('TOUGH2', 'AUTOUGH2') for k in AFTER_PARAM[fl] for n in (3, 6)]
+
+
 def programs(tier):
     ps = [('p_timesteps', n) for n in LENGTHS] + [('p_times', n) for n in LENGTHS] + [('p_selection', n) for n in LENGTHS]
     ps += [('p_generator', (n, en)) for n in range(0, 14) for en in (False, True)]
     ps += [('p_rz2d', (a, b)) for a, b in [(0, 3), (0, 9), (8, 9), (9, 8), (3, 17), (17, 3), (1, 1), (8, 8), (16, 16), (12, 5)]]
     ps += [('p_trim', n) for n in range(0, 9)]
     ps += [('p_section_order', None)]
+    ps += [('p_whole_file', w) for w in WHOLE]
+    ps += [('p_options', 'TOUGH2'), ('p_options', 'AUTOUGH2')]
     return ps
 
 
 def replay(obname, model, result):
     prog = result['program']
+    if prog == 'p_options':
+        m = model or {}
+        mop = [int(m.get('mop%d' % k, 0) if not isinstance(m.get('mop%d' % k), dict) else m['mop%d' % k]['num']) for k in range(1, 25)]
+        momop = [int(m.get('momop%d' % k, 0) if not isinstance(m.get('momop%d' % k), dict) else m['momop%d' % k]['num']) for k in range(1, 22)]
+        if not any(momop):
+            momop[0] = 1
+        return ("import os, tempfile, shutil\nimport numpy as np\nfrom t2data import *\n"
+                "d = t2data(); tmp = tempfile.mkdtemp(dir='/var/tmp')\n"
+                "if %r == 'AUTOUGH2': d.simulator = 'AUTOUGH2.2EW'\n"
+                "d.parameter['option'] = np.array([0] + %r, np.int8); d.more_option = np.array([0] + %r, np.int8)\n"
+                "try:\n"
+                "    d.write(os.path.join(tmp, 'x.dat')); r = t2data(os.path.join(tmp, 'x.dat'))\n"
+                "    ok = list(r.parameter['option']) == list(d.parameter['option']) and list(r.more_option) == list(d.more_option) and 'MOMOP' in r._sections\n"
+                "    detail = 'MOP %%r -> %%r; MOMOP %%r -> %%r' %% (list(d.parameter['option']), list(r.parameter['option']), list(d.more_option), list(r.more_option))\n"
+                "except Exception as e:\n"
+                "    ok, detail = False, '%%s: %%s' %% (type(e).__name__, e)\n"
+                "finally: shutil.rmtree(tmp)\n") % (result['arg'], mop, momop)
+    if prog == 'p_whole_file':
+        flavour, mesh, xp, shape = result['arg']
+        return ("from contracts.c01_model import native_roundtrip\n"
+                "ok, detail = native_roundtrip(%r, %r, %r, %r, %r)\n") % (flavour, mesh, tuple(xp) if xp else None, shape, model or {})
     if prog == 'p_rz2d':
         nrad, nlay = result['arg']
         return ("import os, tempfile, shutil\nfrom t2data import *\n"
